@@ -189,8 +189,8 @@ func c01Schema(cs *h.Case) (*gen.Schema, *tref.Val) {
 	if cs.R.Chance(25) {
 		depth = 4
 	}
-	sc := gen.GenSchema(cs.R, gen.Cfg{MaxDepth: depth, MaxFields: 6, StructKeys: true, BigIDs: true, Recursive: true, Requiredness: cs.R.Bool()})
-	v := gen.GenVal(cs.R, structType(sc.Root), gen.ValCfg{NonFinite: true, InvalidUTF8: true, ShuffleFlds: cs.R.Chance(60), MaxElems: 0}, 0)
+	sc := gen.GenSchema(cs.R, gen.Cfg{MaxDepth: depth, MaxFields: 6, StructKeys: true, BigIDs: true, Recursive: true, Requiredness: cs.R.Bool(), SharedNames: cs.R.Bool()})
+	v := gen.GenVal(cs.R, structType(sc.Root), gen.ValCfg{NonFinite: true, InvalidUTF8: true, BinKeys: true, ShuffleFlds: cs.R.Chance(60), MaxElems: 0}, 0)
 	return sc, v
 }
 
